@@ -1004,4 +1004,13 @@ def average_axis(repo: Repo) -> RuleRun:
 
 average_axis.rule_id = "C09.AVERAGE-AXIS"
 
-RULES = [arc_sense, purity, no_alias_store, affine_balance, unit_normal, direction_parts, transform_equals_methods, transform_routing, linear_parts, deep_copy, mirror_matrix, no_shared_parts, arguments_untouched, super_forwarding, inplace_then_read, invalidate_last, live_lengths, private_coordinates, live_arrays, displacement_copied, average_axis]
+def unit_axis(repo: Repo) -> RuleRun:
+    """'scaling ... gives the same ... edge shapes (scaled by the ratio)': a scaled circle is a circle."""
+    from ..affine import unit_axis_rule
+
+    return unit_axis_rule(repo, PROP, "C09.UNIT-AXIS")
+
+
+unit_axis.rule_id = "C09.UNIT-AXIS"
+
+RULES = [arc_sense, purity, no_alias_store, affine_balance, unit_normal, direction_parts, transform_equals_methods, transform_routing, linear_parts, deep_copy, mirror_matrix, no_shared_parts, arguments_untouched, super_forwarding, inplace_then_read, invalidate_last, live_lengths, private_coordinates, live_arrays, displacement_copied, average_axis, unit_axis]
